@@ -1,14 +1,703 @@
-"""Engine Z driver (generated benchmark crate run as a black box). Filled in later."""
+"""Engine Z driver: the generated zoo crate, built with the real macros from /repo's working
+tree (hooks on), run as a black box. Oracles compare observed stdout / entry dump /
+invocation log / statistics tap with the generator's reference model."""
+import concurrent.futures as cf
+import json
+import os
+import re
+import subprocess
+import tempfile
+import time
+
 from common import Machinery
+import zoogen
+
+ROOT = os.path.dirname(os.path.dirname(os.path.abspath(__file__)))
+NCPU = os.cpu_count() or 4
+
+_state = {}
+
+
+def zoo_dir(tier):
+    return os.path.join(ROOT, "harness", "zoo-" + tier)
+
+
+def target_dir(tier):
+    return os.path.join(ROOT, "target-zoo", tier)
+
+
+def ensure_built(tier, chk):
+    """Generates (idempotently) and builds the zoo of this tier. Returns (binary, model)."""
+    if tier in _state:
+        return _state[tier]
+    zoogen.ZOO = zoo_dir(tier)
+    model = zoogen.generate(tier)
+    env = chk.env_base()
+    env["CARGO_TARGET_DIR"] = target_dir(tier)
+    p = subprocess.run(["cargo", "build", "--offline"], cwd=zoo_dir(tier), env=env, stdout=subprocess.PIPE,
+                       stderr=subprocess.PIPE, text=True, timeout=3600)
+    if p.returncode != 0:
+        tail = "\n".join(l for l in p.stderr.splitlines() if not l.startswith("warning"))[-4000:]
+        raise Machinery("zoo build failed (tier %s):\n%s" % (tier, tail))
+    binary = os.path.join(target_dir(tier), "debug", "zoo")
+    _state[tier] = (binary, model)
+    return _state[tier]
 
 
 def setup(chk):
-    return
+    ensure_built("quick", chk)
+
+
+def clean_env():
+    env = {"PATH": os.environ.get("PATH", "/usr/bin:/bin"), "HOME": os.environ.get("HOME", "/root"), "RUST_BACKTRACE": "0",
+           "NO_COLOR": "1", "TERM": "dumb", "COLUMNS": "200"}
+    return env
+
+
+class Run:
+    pass
+
+
+def run_zoo(binary, argv, env_extra=None, want_log=True, want_dump=False, want_stats=False, timeout=120, clock=None):
+    """One black-box run. Returns Run with rc, out, err, log (list of tab-split records), dump, stats."""
+    env = clean_env()
+    tmp = tempfile.mkdtemp(prefix="zoo")
+    if want_log:
+        env["ZOO_LOG"] = os.path.join(tmp, "log")
+    if want_dump:
+        env["ZOO_DUMP"] = os.path.join(tmp, "dump")
+    if want_stats:
+        env["DIVAN_VERIF_STATS"] = os.path.join(tmp, "stats")
+    if clock is not None:
+        env["DIVAN_VERIF_CLOCK"] = clock
+    env.update(env_extra or {})
+    r = Run()
+    r.argv = argv
+    r.env = {k: v for k, v in env.items() if k not in ("PATH", "HOME", "ZOO_LOG", "ZOO_DUMP", "DIVAN_VERIF_STATS", "TERM", "COLUMNS", "RUST_BACKTRACE", "NO_COLOR")}
+    try:
+        p = subprocess.run([binary] + argv, env=env, stdout=subprocess.PIPE, stderr=subprocess.PIPE, timeout=timeout, cwd=tmp)
+        r.rc, r.out, r.err, r.timeout = p.returncode, p.stdout.decode("utf-8", "replace"), p.stderr.decode("utf-8", "replace"), False
+    except subprocess.TimeoutExpired as e:
+        r.rc, r.out, r.err, r.timeout = None, (e.stdout or b"").decode("utf-8", "replace"), (e.stderr or b"").decode("utf-8", "replace"), True
+    r.log, r.dump, r.stats = [], [], []
+    for name in ("log", "dump", "stats"):
+        path = os.path.join(tmp, name)
+        if os.path.exists(path):
+            text = open(path).read()
+            if name == "log":
+                r.log = [l.split("\t") for l in text.splitlines() if l]
+            else:
+                setattr(r, name, [json.loads(l) for l in text.splitlines() if l])
+            os.unlink(path)
+    try:
+        os.rmdir(tmp)
+    except OSError:
+        pass
+    return r
+
+
+def pmap(fn, items, workers=None):
+    with cf.ThreadPoolExecutor(max_workers=workers or NCPU) as ex:
+        return list(ex.map(fn, items))
+
+
+def new_result(name, tier="quick"):
+    return {"name": name, "states": 0, "transitions": 0, "traces_validated_against_impl": 0, "evaluations": 0, "excluded": 0,
+            "distinct_outcomes": 0, "exhaustive": True, "samples": [], "violations": [], "bounds": {}, "wall_s": 0.0,
+            "_engine": {"engine": "Z", "tier": tier}}
+
+
+def violation(res, sig, text, run=None, extra=None):
+    for v in res["violations"]:
+        if v["sig"] == sig:
+            return
+    if len(res["violations"]) >= 40:
+        return
+    case = {"argv": run.argv if run else None, "env": run.env if run else None}
+    case.update(extra or {})
+    res["violations"].append({"sig": sig, "text": text, "case": case})
+
+
+def count_run(res, r, steps=1):
+    res["states"] += 1
+    res["transitions"] += max(1, steps)
+    res["traces_validated_against_impl"] += 1
+    res["evaluations"] += 1
+
+
+# ----------------------------------------------------------------------------------------
+# Parsing
+# ----------------------------------------------------------------------------------------
+
+GLYPH = re.compile(r"^((?:│  |   )*)(├─ |╰─ )?(.*)$")
+
+
+class Node:
+    def __init__(self, name, depth, line_no, last, rest, raw):
+        self.name, self.depth, self.line_no, self.last, self.rest, self.raw = name, depth, line_no, last, rest, raw
+        self.children = []
+        self.cont = []   # continuation rows (throughput / alloc) belonging to this node
+        self.prefix = ""
+
+    def path(self, parent=""):
+        return self.name if not parent else parent + "::" + self.name
+
+
+def parse_tree(out, has_columns):
+    """Rebuilds the tree from indentation and glyphs alone. Returns (roots, errors, header)."""
+    errors = []
+    roots = []
+    stack = []  # nodes by depth
+    header = None
+    lines = out.split("\n")
+    for no, line in enumerate(lines, 1):
+        if line.strip() == "":
+            continue
+        mt = GLYPH.match(line)
+        prefix, branch, rest = mt.group(1), mt.group(2), mt.group(3)
+        if branch is None:
+            if prefix == "" and not line.startswith(" ") and not line.startswith("│"):
+                # top-level node
+                name, cells = split_cells(rest, has_columns)
+                node = Node(name, 0, no, True, cells, line)
+                roots.append(node)
+                stack = [node]
+                if has_columns and header is None:
+                    header = cells
+                continue
+            # continuation row: belongs to the most recent leaf
+            if not stack:
+                errors.append("line %d: continuation row before any node: %r" % (no, line))
+                continue
+            stack[-1].cont.append((no, line))
+            continue
+        depth = len(prefix) // 3 + 1
+        if depth > len(stack):
+            errors.append("line %d: node at depth %d without a parent at depth %d: %r" % (no, depth, depth - 1, line))
+            continue
+        name, cells = split_cells(rest, has_columns)
+        node = Node(name, depth, no, branch == "╰─ ", cells, line)
+        node.prefix = prefix
+        parent = stack[depth - 1]
+        # well-formedness: a vertical bar exactly under ancestors that have later siblings
+        for d in range(1, depth):
+            seg = prefix[(d - 1) * 3:(d - 1) * 3 + 3]
+            anc = stack[d]
+            want = "   " if anc.last else "│  "
+            if seg != want:
+                errors.append("line %d: column %d holds %r under ancestor %r which %s later siblings" % (no, d, seg, anc.name, "has no" if anc.last else "has"))
+        if parent.children and parent.children[-1].last:
+            errors.append("line %d: %r follows a sibling drawn with the last-child corner" % (no, name))
+        parent.children.append(node)
+        del stack[depth:]
+        stack.append(node)
+    # every last child must be drawn with a corner
+    def check_last(n):
+        if n.children and not n.children[-1].last:
+            errors.append("line %d: %r is the last child of %r but is drawn with a branch" % (n.children[-1].line_no, n.children[-1].name, n.name))
+        for c in n.children:
+            check_last(c)
+    for r in roots:
+        check_last(r)
+    return roots, errors, header
+
+
+def split_cells(rest, has_columns):
+    """Splits 'name   cell │ cell │ ...' into (name, [cells])."""
+    if not has_columns or "│" not in rest:
+        if rest.endswith("(ignored)"):
+            return rest[: -len("(ignored)")].rstrip(), ["(ignored)"]
+        return rest.rstrip(), []
+    first, *others = rest.split("│")
+    # the name is separated from the first cell by at least two spaces
+    mt = re.match(r"^(.*?)(?:\s{2,}(\S.*?))?\s*$", first)
+    name = mt.group(1).rstrip()
+    c0 = (mt.group(2) or "").strip()
+    return name, [c0] + [o.strip() for o in others]
+
+
+def flatten(nodes, parent=""):
+    out = []
+    for n in nodes:
+        p = n.path(parent)
+        out.append((p, n))
+        out.extend(flatten(n.children, p))
+    return out
+
+
+# ----------------------------------------------------------------------------------------
+# Reference helpers
+# ----------------------------------------------------------------------------------------
+
+def expected_records(model, cases, test_mode=True):
+    """Log records a run of exactly `cases` must produce in test mode: per case one HIT (and one
+    ENTER for Bencher-form functions), keyed (kind, bench id, arg, type, const)."""
+    benches = {b["id"]: b for b in model["benches"]}
+    want = []
+    for c in cases:
+        b = benches[c["bench"]]
+        key = (str(b["id"]), c["arg"] if c["arg"] is not None else "-", c["type"] or "-", c["const"] or "-")
+        if b["form"] == "bencher":
+            want.append(("ENTER",) + key)
+        if b.get("body") != "quiet":
+            want.append(("HIT",) + key)
+    return sorted(want)
+
+
+def observed_records(run):
+    return sorted(tuple(r[:5]) for r in run.log if r[0] in ("HIT", "ENTER"))
+
+
+def selected(cases, positives=(), skips=(), exact=False):
+    def hit(f, p):
+        return (f == p) if exact else (re.search(f, p) is not None)
+    out = []
+    for c in cases:
+        if any(hit(f, c["path"]) for f in skips):
+            continue
+        if positives and not any(hit(f, c["path"]) for f in positives):
+            continue
+        out.append(c)
+    return out
+
+
+def filter_argv(positives, skips, exact):
+    argv = list(positives)
+    for s in skips:
+        argv += ["--skip", s]
+    if exact:
+        argv.append("--exact")
+    return argv
+
+
+# ----------------------------------------------------------------------------------------
+# C12
+# ----------------------------------------------------------------------------------------
+
+def check_c12(tier, seed, chk):
+    binary, model = ensure_built(tier, chk)
+    res = new_result("zoo-C12", tier)
+    t0 = time.time()
+    cases = model["cases"]
+
+    # (i) entry dump vs prediction
+    r = run_zoo(binary, ["--list"], want_dump=True)
+    count_run(res, r, len(r.dump))
+    if r.rc != 0:
+        violation(res, {"check": "dump", "class": "crash"}, "zoo --list exited with %s: %s" % (r.rc, r.err[-400:]), r)
+    want_entries = []
+    for b in model["benches"]:
+        mp = "::".join(["zoo"] + b["module"])
+        opts = b["options"]
+        ign = b["ignore"]
+        if b["types"] is None and b["consts"] is None:
+            want_entries.append(("bench", b["raw_name"], b["display_name"], mp, b["line"], b["col"], json.dumps(b["args"]), "null", ign, opts.get("sample_count"), opts.get("sample_size")))
+        else:
+            types, consts = b["types"], b["consts"]
+            if (types is not None and consts is None and len(types) == 0) or (consts is not None and types is None and len(consts) == 0):
+                continue  # `types = []` / `consts = []` alone register nothing
+            if types is not None and consts is not None:
+                g = [[{"type": t, "const": c, "args": b["args"]} for c in consts] for t in types]
+            elif types is not None:
+                g = [[{"type": t, "const": None, "args": b["args"]} for t in types]]
+            else:
+                g = [[{"type": None, "const": c, "args": b["args"]} for c in consts]]
+            want_entries.append(("group", b["raw_name"], b["display_name"], mp, b["line"], b["col"], "null", json.dumps(g), ign, opts.get("sample_count"), opts.get("sample_size")))
+    for g in model["groups"]:
+        mp = "::".join(["zoo"] + g["module"])
+        want_entries.append(("group", g["raw_name"], g["display_name"], mp, g["line"], g["col"], "null", "null", g["ignore"], g["options"].get("sample_count"), g["options"].get("sample_size")))
+    got_entries = []
+    for e in r.dump:
+        o = e["options"] or {}
+        got_entries.append((e["kind"], e["raw_name"], e["display_name"], e["module_path"], e["line"], e["col"],
+                            json.dumps(e.get("args")), json.dumps(e.get("generic")), o.get("ignore"),
+                            str(o["sample_count"]) if o.get("sample_count") is not None else None,
+                            str(o["sample_size"]) if o.get("sample_size") is not None else None))
+    ws, gs = sorted(want_entries, key=str), sorted(got_entries, key=str)
+    if ws != gs:
+        missing = [w for w in ws if w not in gs]
+        extra = [g for g in gs if g not in ws]
+        dup = len(gs) != len(set(map(str, gs)))
+        klass = "duplicate" if dup and not missing else ("missing" if missing and not extra else ("extra" if extra and not missing else "differs"))
+        violation(res, {"check": "registered-entries", "class": klass},
+                  "registered entries differ from the program: missing %s; unexpected %s" % (missing[:3], extra[:3]), r)
+    res["samples"].append({"registered_entries": len(r.dump), "example": r.dump[0] if r.dump else None})
+
+    # (ii) --list tree vs prediction (entries, generic instantiations as children; no args)
+    roots, errors, _ = parse_tree(r.out, False)
+    if errors:
+        violation(res, {"check": "list", "class": "malformed-tree"}, "the --list tree cannot be parsed back: %s" % errors[:3], r)
+    want_nodes = set()
+    for c in cases:
+        parts = c["path"].split("::")
+        if c["arg"] is not None:
+            parts = parts[:-1]
+        want_nodes.add("::".join(parts))
+    got_leaves = set(p for p, n in flatten(roots) if not n.children)
+    if got_leaves != want_nodes and not errors:
+        violation(res, {"check": "list", "class": "entries"}, "--list shows leaves %s..., the program defines %s..." % (sorted(got_leaves - want_nodes)[:4], sorted(want_nodes - got_leaves)[:4]), r)
+
+    # (iii) terse list of everything (ignore resolution is C14's / C15's subject, not C12's)
+    r2 = run_zoo(binary, ["--list", "--format", "terse", "--include-ignored"], {"NEXTEST": "1"})
+    count_run(res, r2, len(r2.out.splitlines()))
+    want_lines = sorted(c["path"] + ": benchmark" for c in cases)
+    got_lines = sorted(l for l in r2.out.splitlines() if l.strip())
+    if want_lines != got_lines:
+        violation(res, {"check": "terse", "class": "cases"}, "terse listing differs from the program's cases: unexpected %s, missing %s" % (
+            [l for l in got_lines if l not in want_lines][:4], [l for l in want_lines if l not in got_lines][:4]), r2)
+
+    # (iv) a full test run executes every case exactly once
+    r3 = run_zoo(binary, ["--test", "--include-ignored"], timeout=600)
+    count_run(res, r3, len(r3.log))
+    if r3.rc != 0:
+        violation(res, {"check": "run", "class": "crash"}, "zoo --test --include-ignored exited with %s: %s" % (r3.rc, r3.err[-600:]), r3)
+    want = expected_records(model, cases)
+    got = observed_records(r3)
+    if want != got:
+        missing = [w for w in want if w not in got]
+        extra = [g for g in got if g not in want]
+        twice = sorted(set(g for g in got if got.count(g) > want.count(g)))
+        klass = "ran-twice" if twice and not missing else ("not-run" if missing and not extra else "wrong-identity")
+        violation(res, {"check": "run", "class": klass}, "a full test run must invoke every case exactly once: not invoked %s; unexpected %s; more often than expected %s" % (missing[:4], extra[:4], twice[:4]), r3)
+    # args expressions evaluated once per process, per function
+    evals = {}
+    for rec in r3.log:
+        if rec[0] == "ARGS":
+            evals[rec[1]] = evals.get(rec[1], 0) + 1
+    bad = {k: v for k, v in evals.items() if v != 1}
+    want_ids = set(str(b["id"]) for b in model["benches"] if b["args"] is not None and b["args_kind"] != "empty" and not (b["types"] == [] or b["consts"] == []))
+    if bad or set(evals) != want_ids:
+        violation(res, {"check": "args-evaluated-once"}, "args expressions must be evaluated exactly once per function and process: counts %s, never evaluated %s" % (bad, sorted(want_ids - set(evals))[:5]), r3)
+    res["samples"].append({"cases": len(cases), "test_run_records": len(got), "example_case": cases[len(cases) // 2]})
+    res["distinct_outcomes"] = len(set(got))
+    res["bounds"] = {"benches": len(model["benches"]), "groups": len(model["groups"]), "cases": len(cases), "tier_zoo": tier,
+                     "observations": ["entry dump through __private lists", "--list tree", "terse listing", "invocation log of --test --include-ignored"]}
+    res["wall_s"] = time.time() - t0
+    return [res]
+
+
+# ----------------------------------------------------------------------------------------
+# Shared: what a run with given filters / ignore flag must execute and show
+# ----------------------------------------------------------------------------------------
+
+FLAGS = [("none", []), ("ignored", ["--ignored"]), ("include", ["--include-ignored"])]
+
+
+def runs_under(flag, case):
+    return {"none": not case["ignore"], "ignored": case["ignore"], "include": True}[flag]
+
+
+def log_is_silent(run):
+    return [r for r in run.log if r[0] in ("HIT", "ENTER", "AUX")]
+
+
+def shown_leaves(model, sel, flag):
+    """Leaf paths a --test / bench run displays for the selected cases: one per executed case; a
+    benchmark that is skipped as ignored is one `(ignored)` leaf without argument children."""
+    benches = {b["id"]: b for b in model["benches"]}
+    out = set()
+    for c in sel:
+        if runs_under(flag, c):
+            out.add(c["path"])
+        else:
+            parts = c["path"].split("::")
+            out.add("::".join(parts[:-1]) if c["arg"] is not None else c["path"])
+    return out
+
+
+FILTER_ALPHABET = ["ign", "^zoo::f00", "a_", "g_t", "inherited", "::1$", "m::", "(TA|x)$", "zoo::nest::a::same", "Shown As"]
+
+
+def filter_sets(tier, model):
+    sets = [((), (), False)]
+    alpha = FILTER_ALPHABET
+    for f in alpha:
+        sets.append(((f,), (), False))
+        sets.append(((), (f,), False))
+    import itertools
+    pairs = list(itertools.combinations(alpha, 2))
+    for i, (a, b) in enumerate(pairs):
+        if tier == "thorough" or i % 5 == 0:
+            sets.append(((a, b), (), False))
+            sets.append(((a,), (b,), False))
+            sets.append(((b,), (a,), False))
+            sets.append(((), (a, b), False))
+    if tier == "thorough":
+        for a, b in pairs[::3]:
+            for c, d in pairs[1::7]:
+                sets.append(((a, b), (c, d), False))
+    # exact filters: whole paths (a case, a case with argument, an inner node, a non-path)
+    paths = [c["path"] for c in model["cases"]]
+    ex = [paths[0], paths[len(paths) // 3], next(p for p in paths if p.endswith("::1")), "zoo::ign::ig", "zoo", "nothing"]
+    for e in ex:
+        sets.append(((e,), (), True))
+        sets.append(((), (e,), True))
+    sets.append(((ex[0], ex[1]), (ex[1],), True))
+    sets.append(((ex[0], ex[2]), (), True))
+    return sets
+
+
+# ----------------------------------------------------------------------------------------
+# C13 (end to end) -- selection through the command line
+# ----------------------------------------------------------------------------------------
+
+def check_c13(tier, seed, chk):
+    binary, model = ensure_built(tier, chk)
+    res = new_result("zoo-C13", tier)
+    t0 = time.time()
+    cases = model["cases"]
+    sets = filter_sets(tier, model)
+
+    def one(fs):
+        pos, skip, exact = fs
+        return fs, run_zoo(binary, ["--test", "--include-ignored"] + filter_argv(pos, skip, exact), timeout=300)
+
+    outcomes = set()
+    for fs, r in pmap(one, sets):
+        pos, skip, exact = fs
+        sel = selected(cases, pos, skip, exact)
+        count_run(res, r, len(r.log))
+        sig_base = {"check": "cli-filter", "exact": exact, "positives": min(len(pos), 2), "skips": min(len(skip), 2)}
+        if r.rc != 0:
+            violation(res, dict(sig_base, **{"class": "crash"}), "zoo --test with filters %s/%s exited with %s: %s" % (pos, skip, r.rc, r.err[-300:]), r)
+            continue
+        want, got = expected_records(model, sel), observed_records(r)
+        if want != got:
+            extra = [g for g in got if g not in want]
+            missing = [w for w in want if w not in got]
+            violation(res, dict(sig_base, **{"class": "ran-unselected" if extra else "did-not-run"}),
+                      "filters positive=%s skip=%s exact=%s: executed cases differ from the rule: unexpected %s, missing %s" % (list(pos), list(skip), exact, extra[:4], missing[:4]), r)
+            continue
+        roots, errors, _ = parse_tree(r.out, False)
+        shown = set(p for p, n in flatten(roots) if not n.children)
+        want_shown = shown_leaves(model, sel, "include")
+        if shown != want_shown:
+            violation(res, dict(sig_base, **{"class": "shown"}),
+                      "filters positive=%s skip=%s exact=%s: displayed cases differ from the selected ones: unexpected %s, missing %s" % (list(pos), list(skip), exact, sorted(shown - want_shown)[:4], sorted(want_shown - shown)[:4]), r)
+        parents = set(p for p, n in flatten(roots) if n.children)
+        want_parents = set()
+        for p in want_shown:
+            parts = p.split("::")
+            for k in range(1, len(parts)):
+                want_parents.add("::".join(parts[:k]))
+        if parents != want_parents and shown == want_shown:
+            violation(res, dict(sig_base, **{"class": "parents"}), "filters positive=%s skip=%s: group / module nodes shown %s differ from those with a selected case below" % (list(pos), list(skip), sorted(parents ^ want_parents)[:5]), r)
+        outcomes.add(len(sel))
+    res["distinct_outcomes"] = len(outcomes)
+    res["samples"] = [{"filter_set": {"positive": list(s[0]), "skip": list(s[1]), "exact": s[2]}, "selected_cases": len(selected(cases, *s))} for s in sets[1:40:9]]
+    res["bounds"] = {"filter_sets": len(sets), "filter_alphabet": FILTER_ALPHABET, "cases": len(cases), "mode": "--test --include-ignored", "tier_zoo": tier}
+    res["wall_s"] = time.time() - t0
+    return [res]
+
+
+# ----------------------------------------------------------------------------------------
+# C14 -- listing runs nothing and agrees with what a run would execute
+# ----------------------------------------------------------------------------------------
+
+def check_c14(tier, seed, chk):
+    binary, model = ensure_built(tier, chk)
+    res = new_result("zoo-C14", tier)
+    t0 = time.time()
+    cases = model["cases"]
+    sets = filter_sets("quick", model) if tier == "quick" else filter_sets("thorough", model)[::3]
+    jobs = [(fs, flag) for fs in sets for flag in FLAGS]
+
+    def one(job):
+        (pos, skip, exact), (flag, fargv) = job
+        fa = filter_argv(pos, skip, exact)
+        a = run_zoo(binary, ["--list", "--format", "terse"] + fargv + fa, {"NEXTEST": "1"}, timeout=120)
+        b = run_zoo(binary, ["--test"] + fargv + fa, timeout=300)
+        c = run_zoo(binary, ["--list"] + fargv + fa, timeout=120)
+        return job, a, b, c
+
+    benches = {b["id"]: b for b in model["benches"]}
+    outcomes = set()
+    for job, a, b, c in pmap(one, jobs):
+        (pos, skip, exact), (flag, fargv) = job
+        desc = "filters positive=%s skip=%s exact=%s flag=%s" % (list(pos), list(skip), exact, flag)
+        for r in (a, b, c):
+            count_run(res, r, len(r.out.splitlines()))
+        sigb = {"flag": flag, "filtered": bool(pos or skip)}
+        for name, r in (("terse list", a), ("--list", c)):
+            noisy = log_is_silent(r)
+            if noisy:
+                violation(res, dict(sigb, **{"check": "list-runs-nothing", "action": name}), "%s (%s) invoked benchmark code: %s" % (name, desc, noisy[:3]), r)
+        if a.rc != 0 or b.rc != 0:
+            violation(res, dict(sigb, **{"check": "crash"}), "%s: terse list exited %s, test run exited %s: %s" % (desc, a.rc, b.rc, (a.err + b.err)[-300:]), a)
+            continue
+        listed = [l for l in a.out.split("\n") if l.strip()]
+        bad_lines = [l for l in listed if not l.endswith(": benchmark")]
+        if bad_lines:
+            violation(res, dict(sigb, **{"check": "terse-format"}), "%s: terse listing prints something other than `path: benchmark`: %r" % (desc, bad_lines[:3]), a)
+        listed_paths = sorted(l[: -len(": benchmark")] for l in listed if l.endswith(": benchmark"))
+        # cases the test run executed, mapped back to paths through the model
+        executed = []
+        recs = observed_records(b)
+        for cse in cases:
+            bn = benches[cse["bench"]]
+            if bn.get("body") == "quiet":
+                continue
+            key = ("HIT", str(bn["id"]), cse["arg"] if cse["arg"] is not None else "-", cse["type"] or "-", cse["const"] or "-")
+            executed += [cse["path"]] * recs.count(key)
+        executed.sort()
+        if listed_paths != executed:
+            only_listed = [p for p in listed_paths if p not in executed]
+            only_run = [p for p in executed if p not in listed_paths]
+            dup = [p for p in set(listed_paths) if listed_paths.count(p) > 1]
+            kind = "inherited-or-overridden" if any(any(g["ignore"] is not None for g in model["groups"] if "::".join(["zoo"] + g["module"] + [g["raw_name"]]) in p or g["display_name"] in p) for p in only_listed + only_run) else "direct"
+            violation(res, dict(sigb, **{"check": "terse-vs-run", "ignore_source": kind, "listed_not_run": bool(only_listed), "run_not_listed": bool(only_run)}),
+                      "%s: the terse listing and the test run disagree: listed but not run %s; run but not listed %s; listed twice %s" % (desc, only_listed[:4], only_run[:4], dup[:3]), a)
+        outcomes.add((flag, len(listed_paths)))
+
+    # Divan::list_benches through the builder
+    for mode in ("default;list", "from_args;list", "from_args;run_ignored;list"):
+        r = run_zoo(binary, [], {"ZOO_MODE": mode}, timeout=300)
+        count_run(res, r, len(r.out.splitlines()))
+        noisy = log_is_silent(r)
+        if noisy:
+            violation(res, {"check": "list-runs-nothing", "action": "Divan::list_benches"}, "Divan::list_benches() (%s) invoked benchmark code: %d invocations, e.g. %s" % (mode, len(noisy), noisy[:2]), r)
+
+    # feeding every listed path back as the only --exact filter selects that case and no other
+    r_all = run_zoo(binary, ["--list", "--format", "terse", "--include-ignored"], {"NEXTEST": "1"})
+    listed = [l[: -len(": benchmark")] for l in r_all.out.split("\n") if l.endswith(": benchmark")]
+    by_path = {}
+    for cse in cases:
+        by_path.setdefault(cse["path"], []).append(cse)
+
+    def feed(path):
+        return path, run_zoo(binary, ["--test", "--include-ignored", "--exact", path], timeout=120)
+
+    step = 1 if tier == "thorough" or len(listed) < 400 else 2
+    for path, r in pmap(feed, listed[::step]):
+        count_run(res, r, len(r.log))
+        want = expected_records(model, by_path.get(path, []))
+        got = observed_records(r)
+        if want != got or len(by_path.get(path, [])) != 1:
+            violation(res, {"check": "exact-feedback", "has_arg": any(c["arg"] is not None for c in by_path.get(path, []))},
+                      "--test --exact %r must run exactly the listed case: ran %s, expected %s" % (path, got[:4], want[:4]), r)
+    res["distinct_outcomes"] = len(outcomes)
+    res["samples"] = [{"terse_listing_lines": len(listed), "example": listed[:3]}, {"jobs": len(jobs), "example_job": {"filters": list(map(list, jobs[5][0][:2])), "flag": jobs[5][1][0]}}]
+    res["bounds"] = {"filter_sets": len(sets), "flags": [f[0] for f in FLAGS], "runs_per_job": ["terse list", "--test", "--list"], "exact_feedback_paths": len(listed[::step]),
+                     "builder_modes": 3, "cases": len(cases), "tier_zoo": tier}
+    res["wall_s"] = time.time() - t0
+    return [res]
+
+
+# ----------------------------------------------------------------------------------------
+# C17 -- each row is measured with the argument, constant and type it names
+# ----------------------------------------------------------------------------------------
+
+SORTS = [("--sort", "kind"), ("--sort", "name"), ("--sort", "location"), ("--sortr", "kind"), ("--sortr", "name"), ("--sortr", "location")]
+
+
+def check_c17(tier, seed, chk):
+    binary, model = ensure_built(tier, chk)
+    res = new_result("zoo-C17", tier)
+    t0 = time.time()
+    cases = model["cases"]
+    benches = {b["id"]: b for b in model["benches"]}
+    by_path = {}
+    for cse in cases:
+        by_path.setdefault(cse["path"], []).append(cse)
+
+    # (a) every case alone
+    def alone(cse):
+        return cse, run_zoo(binary, ["--test", "--include-ignored", "--exact", cse["path"]], timeout=120)
+
+    generic_or_args = [c for c in cases if c["arg"] is not None or c["type"] or c["const"]]
+    for cse, r in pmap(alone, generic_or_args):
+        count_run(res, r, len(r.log))
+        want = expected_records(model, [cse])
+        got = observed_records(r)
+        if want != got:
+            b = benches[cse["bench"]]
+            violation(res, {"check": "case-alone", "args_kind": b["args_kind"], "generic": bool(cse["type"] or cse["const"])},
+                      "the case labelled %r ran with %s; its label demands argument %r, type %r, const %r" % (cse["path"], got[:3], cse["arg"], cse["type"], cse["const"]), r)
+
+    # (b) whole families under every sort and under filters that keep strict subsets of the
+    # arguments: the k-th displayed case must be the k-th invocation
+    arg_benches = [b for b in model["benches"] if b["args"] and len(b["args"]) >= 2]
+    if tier != "thorough":
+        seen_kinds, keep = set(), []
+        for b in arg_benches:
+            key = (b["args_kind"], b["types"] is not None, b["consts"] is not None)
+            if key not in seen_kinds:
+                seen_kinds.add(key)
+                keep.append(b)
+        arg_benches = keep
+    jobs = []
+    for b in arg_benches:
+        mine = [c for c in cases if c["bench"] == b["id"]]
+        prefix = mine[0]["path"].rsplit("::", 1)[0] if not (b["types"] or b["consts"]) else None
+        fam = "^zoo::" + "::".join(b["module"][:1]) + "::"
+        labels = b["args"]
+        subsets = [None]
+        if len(labels) <= 4 or tier == "thorough":
+            subsets += [("only", a) for a in labels[: 6]] + [("skip", a) for a in labels[: 6]]
+        else:
+            subsets += [("only", labels[0]), ("only", labels[-1]), ("skip", labels[1])]
+        for sub in subsets:
+            for sort in (SORTS if sub is None or tier == "thorough" else SORTS[1:5:3]):
+                argv = ["--test", "--include-ignored", sort[0], sort[1], fam]
+                keep_cases = mine
+                if sub is not None:
+                    kind, a = sub
+                    esc = re.escape(a)
+                    if kind == "only":
+                        argv = ["--test", "--include-ignored", sort[0], sort[1], fam + ".*::" + esc + "$"]
+                        keep_cases = [c for c in mine if c["arg"] == a]
+                    else:
+                        argv += ["--skip", "::" + esc + "$"]
+                        keep_cases = [c for c in mine if c["arg"] != a]
+                jobs.append((b, sub, sort, argv, keep_cases))
+
+    def fam_run(job):
+        return job, run_zoo(binary, job[3], timeout=120)
+
+    for (b, sub, sort, argv, keep_cases), r in pmap(fam_run, jobs):
+        count_run(res, r, len(r.log))
+        sigb = {"check": "family-run", "args_kind": b["args_kind"], "subset": sub[0] if sub else "all", "sort": "%s %s" % sort}
+        want = expected_records(model, keep_cases)
+        got = observed_records(r)
+        if want != got:
+            violation(res, dict(sigb, **{"class": "identity"}), "%s %s, arguments kept: %s: invocations %s differ from the labelled cases %s" % (sort[0], sort[1], sub, got[:4], want[:4]), r)
+            continue
+        roots, errors, _ = parse_tree(r.out, False)
+        shown = [p for p, n in flatten(roots) if not n.children]
+        hits = [rec for rec in r.log if rec[0] == "HIT"]
+        # map every hit back to its case path; order must equal display order
+        order = []
+        for rec in hits:
+            for c in keep_cases:
+                if (str(c["bench"]), c["arg"] if c["arg"] is not None else "-", c["type"] or "-", c["const"] or "-") == tuple(rec[1:5]):
+                    order.append(c["path"])
+                    break
+        if order != shown:
+            violation(res, dict(sigb, **{"class": "row-order"}), "%s %s, arguments kept: %s: rows are displayed as %s but were measured in the order %s" % (sort[0], sort[1], sub, shown[:6], order[:6]), r)
+    res["distinct_outcomes"] = len(set(j[0]["args_kind"] for j in jobs))
+    res["samples"] = [{"cases_run_alone": len(generic_or_args), "family_runs": len(jobs), "example_argv": jobs[len(jobs) // 2][3] if jobs else None}]
+    res["bounds"] = {"cases_with_arg_type_or_const": len(generic_or_args), "arg_benches_in_family_runs": len(arg_benches), "sorts": ["%s %s" % s for s in SORTS],
+                     "subsets": "all, every single argument, every all-but-one (first 6 labels)", "tier_zoo": tier,
+                     "args_evaluated_once": "checked in the full run of C12 and here per process through the invocation log"}
+    res["wall_s"] = time.time() - t0
+    return [res]
+
+
+CHECKS = {"C12": check_c12, "C13": check_c13, "C14": check_c14, "C17": check_c17}
 
 
 def run(job, tier, seed, chk):
-    raise Machinery("engine Z not built yet")
+    fn = CHECKS.get(job["prop"])
+    if fn is None:
+        raise Machinery("engine Z has no check for %s" % job["prop"])
+    return fn(job.get("zoo_tier", tier), seed, chk)
 
 
 def replay(body, chk):
-    raise Machinery("engine Z not built yet")
+    """Re-runs the property's whole zoo check (the oracle needs the model) and returns the
+    violations that carry the recorded signature."""
+    prop = body["property"]
+    tier = body.get("engine", {}).get("tier", "quick")
+    results = CHECKS[prop](tier, 0, chk)
+    same = [v for r in results for v in r["violations"] if v["sig"] == body["sig"]]
+    return (1 if same else 0), same
